@@ -7,7 +7,7 @@
    (one step = one Read+limiter wait, one Write, or the deferred closeBridge).
    External behaviour assumed (hypotheses written into the model, see Model/Pipe.v): x/time/rate's WaitN fails iff
    n > burst or the context is cancelled and otherwise only delays; a Write returns 0 <= n <= len. *)
-From TX Require Import Model.Pipe Model.PipeClose Proofs.Pipe Proofs.PipeTop Proofs.PipeBridge Proofs.PipeLife Proofs.PipeClose Proofs.PipeReattach Proofs.SideC02 Gen.C02.
+From TX Require Import Model.Pipe Model.PipeClose Proofs.Pipe Proofs.PipeTop Proofs.PipeBridge Proofs.PipeLife Proofs.PipeClose Proofs.PipeReattach Proofs.PipeIndep Proofs.SideC02 Gen.C02.
 
 (* ---------------- one direction in isolation: Bridge.CopyWithControl ---------------- *)
 
@@ -220,6 +220,74 @@ Theorem C02_reattach_run_exists :
   fst s = [[1;2]; [3;4;5]]%N.
 Proof. exact reattach_nonvacuous. Qed.
 Print Assumptions C02_reattach_run_exists.
+
+(* ---------------- the two directions are independent; closure propagates on close AND on failure ---------------- *)
+
+(* direction independence: for every schedule, as long as the bridge is open, the thread of direction i and the stream it
+   has delivered are exactly those of a run in which direction i takes the same number of steps ALONE, against ANY other
+   input of the opposite direction (other script, other oracle, never scheduled = parked in its read for ever).  "In both
+   directions at the same time, for any timing": what one end receives never waits for what the other end sends. *)
+Theorem C02_directions_independent :
+  forall lim rs0 ws0 rs1 ws1 rs0' ws0' rs1' ws1' (sched : list nat) i, (i < 2)%nat ->
+  (i = 0%nat -> rs0' = rs0 /\ ws0' = ws0) -> (i = 1%nat -> rs1' = rs1 /\ ws1' = ws1) ->
+  let s := bridge_run current_variant BatchUpdateThreshold lim rs0 ws0 rs1 ws1 sched in
+  let s' := bridge_run current_variant BatchUpdateThreshold lim rs0' ws0' rs1' ws1' (repeat i (count_occ Nat.eq_dec sched i)) in
+  s_closed (fst s) = false ->
+  nth_error (snd s) i = nth_error (snd s') i /\ sh_out (Nat.eqb i 1) (fst s) = sh_out (Nat.eqb i 1) (fst s').
+Proof. exact (directions_independent current_variant BatchUpdateThreshold). Qed.
+Print Assumptions C02_directions_independent.
+
+(* refuted: if a Write to an end waits while the opposite direction is parked in its Read of that end (adapter Write under the
+   mutex Read holds across ReadAvailable), "server speaks first" is never delivered: the source end stays silent (direction 0
+   never gets a step), direction 1 runs for any number n of steps, and the source end still has nothing *)
+Theorem C02_coupled_directions_never_deliver_refuted :
+  forall n, s_out1 (fst (coupled_run Sliced 1048576 None [{| r_data := [1]%N; r_end := RNone |}] []
+                                      [{| r_data := [104; 105]%N; r_end := RNone |}] [] (repeat 1%nat n))) = [].
+Proof. exact coupled_never_delivers_refuted. Qed.
+Print Assumptions C02_coupled_directions_never_deliver_refuted.
+
+(* the same input in the model of the code: delivered after two steps of direction 1 *)
+Theorem C02_independent_directions_deliver :
+  s_out1 (fst (bridge_run Sliced 1048576 None [{| r_data := [1]%N; r_end := RNone |}] []
+                                   [{| r_data := [104; 105]%N; r_end := RNone |}] [] [1; 1]%nat)) = [104; 105]%N.
+Proof. exact independent_delivers_witness. Qed.
+Print Assumptions C02_independent_directions_deliver.
+
+(* closure propagation, for closes and for failures alike: the bridge is closed as soon as ANY direction has ended, whatever
+   the reason (C02_bridge_close_once: EOF, read error, write error, short write — a Read that fails is RFatal exactly like
+   EOF); from then on a direction that gets two more steps is done, i.e. its end has observed the closure *)
+Theorem C02_closure_propagates_on_close_or_failure :
+  forall lim rs0 ws0 rs1 ws1 (sched1 sched2 : list nat) j, (j < 2)%nat ->
+  s_closed (fst (bridge_run current_variant BatchUpdateThreshold lim rs0 ws0 rs1 ws1 sched1)) = true ->
+  2 <= count_occ Nat.eq_dec sched2 j ->
+  exists t x, nth_error (snd (bridge_run current_variant BatchUpdateThreshold lim rs0 ws0 rs1 ws1 (sched1 ++ sched2))) j = Some t /\
+              b_pc t = BDone x.
+Proof. exact (closure_propagates current_variant BatchUpdateThreshold). Qed.
+Print Assumptions C02_closure_propagates_on_close_or_failure.
+
+(* the half-close relay iocopy.Bidirectional (Model/PipeClose.v hstep): whether end A's stream ends with EOF or with an
+   error, after n+2 steps of direction A->B the listening peer of B has seen the end of the stream, under every schedule *)
+Theorem C02_relay_peer_sees_end_on_close_or_failure :
+  forall n (kind : endkind) (sched : list nat),
+  n + 2 <= count_occ Nat.eq_dec sched 0 ->
+  h_peerB_sees_end (fst (relay_run HalfCloseAlways n kind sched)) = true.
+Proof. exact relay_peer_sees_end_on_close_or_failure. Qed.
+Print Assumptions C02_relay_peer_sees_end_on_close_or_failure.
+
+(* refuted: half-closing only after a clean EOF — when end A fails, under EVERY schedule the listening peer never sees the
+   end and direction B->A stays parked (Bidirectional never returns) *)
+Theorem C02_relay_eof_only_policy_refuted :
+  forall n (sched : list nat),
+  h_peerB_sees_end (fst (relay_run HalfCloseOnEofOnly n EndErr sched)) = false /\
+  nth_error (snd (relay_run HalfCloseOnEofOnly n EndErr sched)) 1 = Some HListen.
+Proof. exact relay_eof_only_policy_refuted. Qed.
+Print Assumptions C02_relay_eof_only_policy_refuted.
+
+(* non-vacuity: end A fails after two chunks, B's peer reacts to the half-close, the relay returns *)
+Theorem C02_relay_returns_after_failure :
+  relay_returned (relay_run HalfCloseAlways 2 EndErr [0; 1; 0; 0; 0; 1; 1]) = true.
+Proof. exact relay_returns_after_failure. Qed.
+Print Assumptions C02_relay_returns_after_failure.
 
 (* ---------------- (4) the server forgets the tunnel ---------------- *)
 
